@@ -850,9 +850,9 @@ def wl_inverse(run, rng, idx):
 
 
 WORKLOADS = [
-    Workload("exact-integer", wl_exact, quick=72, thorough=8640),
-    Workload("float-sampling", wl_float, quick=98, thorough=11760),
-    Workload("special-matrices", wl_hostile, quick=36, thorough=1728),
-    Workload("hom-wrappers", wl_wrappers, quick=20, thorough=1200),
-    Workload("documented-inverse", wl_inverse, quick=120, thorough=14400),
+    Workload("exact-integer", wl_exact, quick=72, thorough=5760),
+    Workload("float-sampling", wl_float, quick=98, thorough=7840),
+    Workload("special-matrices", wl_hostile, quick=36, thorough=1152),
+    Workload("hom-wrappers", wl_wrappers, quick=20, thorough=800),
+    Workload("documented-inverse", wl_inverse, quick=120, thorough=9600),
 ]
